@@ -91,6 +91,20 @@ def build_sim(spec, do_new=True):
     raise ValueError(kind)
 
 
+def call_new(sim, spec):
+    """the `new` call build_sim makes, on an existing simulator (a second dataset from the same object)"""
+    lo, hi = [float(v) for v in spec.get("domain", [0.0, 1.0])]
+    if spec["kind"] == "kl":
+        kw = {}
+        if spec.get("clusters_std") is not None:
+            kw["clusters_std"] = spec["clusters_std"]
+        sim.new(n_obs=int(spec["n_obs"]), n_clusters=int(spec.get("n_clusters", 1)), **kw)
+    elif spec["kind"] == "brownian":
+        sim.new(n_obs=int(spec["n_obs"]), argvals=np.linspace(lo, hi, int(spec["n_points"])), **spec.get("kwargs", {}))
+    else:
+        sim.new(n_obs=int(spec["n_obs"]), argvals=np.linspace(lo, hi, int(spec["n_points"])))
+
+
 def spec_is_2d(spec):
     """True when sparsification is unsupported (every component has dimension > 1)."""
     return spec["kind"] == "kl" and all(len(c) > 1 for c in spec["components"])
@@ -839,12 +853,20 @@ def fault_level(rep, rng, quick, dd):
 # ---------------------------------------------------------------------------
 def history_level(rep, rng, specs, quick, dd):
     n_hist = 12 if quick else 120
-    for h in range(n_hist):
-        spec = specs[int(rng.integers(len(specs)))]
+    fixed = [[("add_noise_and_sparsify", 0.25, 0.5, 0.05), ("new", 0.0, 0.0, 0.0), ("add_noise_and_sparsify", 0.25, 0.5, 0.05),
+              ("sparsify", 0.0, 0.5, 0.05)],
+             [("add_noise_and_sparsify", 1.5, 1.5, 0.0), ("new", 0.0, 0.0, 0.0), ("add_noise", 0.25, 0.0, 0.0),
+              ("add_noise_and_sparsify", 0.25, 1.0, 0.0)]]
+    plan = [(specs[k % len(specs)], fixed[k % 2]) for k in range(min(len(specs), 8 if quick else len(specs)))]
+    for h in range(len(plan) + n_hist):
+        if h < len(plan):
+            spec, preset = plan[h]
+        else:
+            spec, preset = specs[int(rng.integers(len(specs)))], None
         sim = build_sim(spec)
         d0, snap0 = sim.data, snapshot(sim.data)
-        length = int(rng.integers(2, 7 if quick else 14))
-        calls = []
+        length = int(rng.integers(2, 7 if quick else 14)) if preset is None else 0
+        calls = [] if preset is None else list(preset)
         for _ in range(length):
             op = ["add_noise", "sparsify", "add_noise_and_sparsify"][int(rng.integers(3))]
             v = float(rng.choice([0.0, 0.25, 1.5]))
@@ -852,8 +874,20 @@ def history_level(rep, rng, specs, quick, dd):
             e = float(rng.choice([0.0, 0.05, 0.5]))
             bad_arg = bool(rng.integers(6) == 0)           # a call that fails inside numpy (negative variance is not one; p>1 is)
             calls.append((op, v, 1.5 if bad_arg else p, e))
+        if preset is None and h % 2 == 1 and length >= 3:
+            # the simulator is reused for a second dataset in the middle of the history: from then on `data` is the NEW dataset
+            calls[length // 2] = ("new", 0.0, 0.0, 0.0)
         for i, (op, v, p, e) in enumerate(calls):
             err = None
+            if op == "new":
+                try:
+                    call_new(sim, spec)
+                    d0, snap0 = sim.data, snapshot(sim.data)
+                except Exception as ex:  # noqa: BLE001
+                    dd.violation("history-new", f"history step {i}: a second new() on the same simulator raised {type(ex).__name__}",
+                                 {"spec": spec, "calls": [list(c) for c in calls[: i + 1]]})
+                    break
+                continue
             try:
                 if op == "add_noise":
                     sim.add_noise(v)
